@@ -72,6 +72,9 @@ def header_view_record(fb, cls):
     return rec
 
 
+SIZE_SYM = "payload size"
+
+
 class HeaderInterp(g4.Interp):
     """G4 interpreter that understands `getHeader()->accessor(...)`: the call is
     evaluated on the header storage (the first sizeof(Header) payload bytes)."""
@@ -90,7 +93,29 @@ class HeaderInterp(g4.Interp):
                 n2 = dict(n)
                 n2["obj"] = {"k": "this", "id": -1}
                 return super().call(n2, env, depth)
+            if (n.get("callee") or {}).get("nm") == "size" and not n.get("args") and self.header_rec and self.fb.is_payload_buffer(o):
+                # the payload's own size: an unknown value that is at least sizeof(Header) — the class invariant every
+                # construction site establishes (C02-R2) and the premise under which the header storage exists at all
+                return BV.param(SIZE_SYM, 64, False)
         return super().call(n, env, depth)
+
+    def binop(self, op, a, b, t):
+        """`payloadData.size() <rel> constant` is decided where the class invariant size >= sizeof(Header) decides it: a guard
+        `size() < sizeof(Header)` in front of a header read changes nothing, `size() < 40` in front of a 36-byte header does."""
+        if op in ("<", "<=", ">", ">=", "==", "!=") and self.header_rec:
+            flip = {"<": ">", "<=": ">=", ">": "<", ">=": "<=", "==": "==", "!=": "!="}
+            for x, y, o2 in ((a, b, op), (b, a, flip[op])):
+                c = y.value()
+                if c is not None and x.w == 64 and all(x.bits[j] == g4.P(SIZE_SYM, j) for j in range(64)):
+                    lb = self.fb.record(self.header_rec)["size"]
+                    r = None
+                    if o2 == "<" and c <= lb or o2 == "<=" and c < lb or o2 == "==" and c < lb:
+                        r = 0
+                    if o2 == ">=" and c <= lb or o2 == ">" and c < lb or o2 == "!=" and c < lb:
+                        r = 1
+                    if r is not None:
+                        return BV.const(r, 1, False)
+        return super().binop(op, a, b, t)
 
 
 def wire_pos(offset, nbytes):
